@@ -48,7 +48,7 @@ class Result:
     def __bool__(self):
         # adapters may be falsy objects (empty containers): only None means
         # "no adapter"
-        return self.v.vid % 2 == 1
+        return self.v.vid % 2 == 0
 
 
 class V:
@@ -615,6 +615,12 @@ def run_case(case):
                     r.unregister(w.req(k[0]), w.prov[k[1]], k[2])
             if it[0] == 'r':
                 e = it[2]
+                if noise and rnd.random() < 0.3:
+                    # the final value overwrites another one
+                    w.reg[it[1]].register(
+                        w.req(e['req'], rnd.random() < 0.5),
+                        w.prov[e['prov']], e['name'],
+                        w.val(8000 + rnd.randrange(5)))
                 w.reg[it[1]].register(w.req(e['req'], rnd.random() < 0.5),
                                       w.prov[e['prov']], e['name'],
                                       w.val(e['val']))
